@@ -6,6 +6,19 @@ import os
 VERIF = os.path.dirname(os.path.dirname(os.path.abspath(__file__)))
 
 CHECKS = {
+    "C06": dict(
+        technique="what the library BUILDS for every structure with both directions is parsed by TLC with the T10Data.tla "
+                  "parsers and compared with the values (Trace_Data Marshal events); parse-of-build and build-of-parse "
+                  "are compared on those TLC-accepted byte strings; read-modify-write of every mode page field through the "
+                  "facade is judged the same way",
+        text="15 structures (standard INQUIRY, VPD 80/83/86/B2/B3 with all designator kinds, mode parameter lists 6/10, READ "
+             "CAPACITY 10/16, GET LBA STATUS, REPORT LUNS, RTPG both headers, READ ELEMENT STATUS, TransportIDs): build "
+             "places every value where the standard says, lengths honest, parse(build(v)) = v, build(parse(b)) = b; "
+             "modesense6 -> change one field -> modeselect6 for all 44 fields of four mode pages changes at most the "
+             "field's bytes.",
+        note="Value dictionaries come from decoding generated responses (decoders judged by C04); canonical byte strings "
+             "are the build images TLC accepted.",
+        ref="6 C06"),
     "C05": dict(
         technique="data-out parameter lists transcribed into TLA+ as parsers with exact-length predicates (T10Data.tla "
                   "ParseOut/Exact); every list the library composes from a random valid dictionary is parsed by TLC and "
